@@ -353,8 +353,8 @@ def translate(repo):
               "source digest (common.py, models/common.py, the five model files): %s\n\n"
               "Every `def` below is a mechanical translation of one Python function; every `theorem …_eq` says that the translation IS the\n"
               "hand-written model definition the theorems of OSProofs are about (for every scalar type, so also at `Float`).\n"
-              "recognised primitives: %s\n-/\nset_option linter.unusedVariables false\nnamespace OS\nnamespace Gen\nopen Scalar\nvariable {α : Type} [Scalar α]\n\n" % (h.hexdigest()[:16], "; ".join(notes)))
-    return header + "\n".join(out) + "\nend Gen\nend OS\n"
+              "recognised primitives: %s\n-/\nset_option linter.unusedVariables false\nset_option linter.unusedSectionVars false\nnamespace OS\nnamespace Gen\nopen Scalar\nvariable {α : Type} [Scalar α]\n\n" % (h.hexdigest()[:16], "; ".join(notes)))
+    return header + "\n".join(out) + "\n/-! ### constructing and copying ratings (rating classes, model.rating, model.create_rating) -/\n" + translate_construction(repo) + "\nend Gen\nend OS\n"
 
 
 GAMMAVAL_OLD = "gammaVal .dflt c k mu s2 rank"
@@ -481,6 +481,104 @@ def render_validation(repo):
         out.append("theorem rateHead_%s_eq (t r s : PyVal) :\n    exec .%s Gen.rateHead_%s [(\"teams\", t), (\"ranks\", r), (\"scores\", s)] = validateRate .%s t r s :=\n"
                    "  VLangTie.exec_rateHead .%s Gen.rateHead_%s rfl t r s\n" % (kind, kind, kind, kind, kind, kind))
     out.append("end Gen\nend OS\n")
+    return "\n".join(out)
+
+
+# ------------------------------------------------------------------------------------------------------------------
+# constructing and copying ratings (C20): the rating class's __init__ and __deepcopy__, the model's rating() and create_rating()
+def _ctor_fields(init_fn):
+    """__init__(self, mu, sigma, name=None) -> which expression each attribute receives; id must be a fresh uuid"""
+    ps = [a.arg for a in init_fn.args.args]
+    if ps != ["self", "mu", "sigma", "name"]:
+        fail(init_fn, "rating __init__ parameters")
+    got = {}
+    for s_ in init_fn.body:
+        if isinstance(s_, ast.Expr) and isinstance(s_.value, ast.Constant):
+            continue
+        tgt = s_.target if isinstance(s_, ast.AnnAssign) else (s_.targets[0] if isinstance(s_, ast.Assign) and len(s_.targets) == 1 else None)
+        if tgt is None or not (isinstance(tgt, ast.Attribute) and isinstance(tgt.value, ast.Name) and tgt.value.id == "self") or s_.value is None:
+            fail(s_, "statement in rating __init__ other than self.attr = expr")
+        got[tgt.attr] = ast.unparse(s_.value)
+    if set(got) != {"id", "name", "mu", "sigma"}:
+        fail(init_fn, "rating __init__ sets attributes %s" % sorted(got))
+    if got["mu"] != "mu" or got["sigma"] != "sigma" or got["name"] != "name" or got["id"] not in ("uuid.uuid4().hex.lower()", "uuid.uuid4().hex"):
+        fail(init_fn, "rating __init__ does not store its arguments unchanged / id is not a fresh uuid4: %r" % got)
+    return True
+
+
+def _ctor_call(e, rating_cls, env):
+    """Cls(a, b[, c]) / self.Cls(...) / Cls(mu=a, sigma=b[, name=c]) -> (mu expr, sigma expr) as Lean terms"""
+    if not (isinstance(e, ast.Call) and ast.unparse(e.func) in (rating_cls, "self." + rating_cls)):
+        fail(e, "expected a call of the rating class")
+    args = {}
+    for i, a in enumerate(e.args):
+        args[("mu", "sigma", "name")[i]] = a
+    for k in e.keywords:
+        args[k.arg] = k.value
+    if "mu" not in args or "sigma" not in args:
+        fail(e, "rating constructed without mu / sigma")
+
+    def tr(x):
+        if isinstance(x, ast.IfExp) and isinstance(x.test, ast.Compare) and len(x.test.ops) == 1 and isinstance(x.test.ops[0], ast.IsNot) \
+                and isinstance(x.test.comparators[0], ast.Constant) and x.test.comparators[0].value is None \
+                and ast.unparse(x.test.left) == ast.unparse(x.body) and ast.unparse(x.body) in env["opt"]:
+            return "(match %s with | some v => v | none => %s)" % (ast.unparse(x.body), tr(x.orelse))
+        src = ast.unparse(x)
+        if src in env["plain"]:
+            return env["plain"][src]
+        fail(x, "unsupported constructor argument")
+    return tr(args["mu"]), tr(args["sigma"])
+
+
+def translate_construction(repo):
+    wl = os.path.join(repo, "openskill", "models", "weng_lin")
+    out = []
+    for kind, fname, cls in KINDS:
+        try:
+            tree = ast.parse(open(os.path.join(wl, fname)).read())
+            rcls = [n for n in tree.body if isinstance(n, ast.ClassDef) and n.name == cls][0]
+            mcls = [n for n in tree.body if isinstance(n, ast.ClassDef) and any(isinstance(m, ast.FunctionDef) and m.name == "rate" for m in n.body)][0]
+            fn = {m.name: m for m in rcls.body if isinstance(m, ast.FunctionDef)}
+            mf = {m.name: m for m in mcls.body if isinstance(m, ast.FunctionDef)}
+            _ctor_fields(fn["__init__"])
+            # __deepcopy__: x = Cls(self.mu, self.sigma, self.name); x.id = self.id; return x
+            body = [s_ for s_ in fn["__deepcopy__"].body if not (isinstance(s_, ast.Expr) and isinstance(s_.value, ast.Constant))]
+            if not (len(body) == 3 and isinstance(body[0], ast.Assign) and isinstance(body[1], ast.Assign) and isinstance(body[2], ast.Return)):
+                fail(fn["__deepcopy__"], "__deepcopy__ is not (construct; copy the id; return)")
+            var = body[0].targets[0].id
+            dm, ds = _ctor_call(body[0].value, cls, dict(opt=set(), plain={"self.mu": "self.mu", "self.sigma": "self.sigma"}))
+            if ast.unparse(body[1]) != "%s.id = self.id" % var or ast.unparse(body[2].value) != var:
+                fail(fn["__deepcopy__"], "__deepcopy__ does not copy the id onto the new object and return it")
+            out.append("def deepcopy_%s (self : Rating α) : Rating α :=\n  { id := self.id, mu := %s, sigma := %s }\n" % (kind, dm, ds))
+            out.append("theorem deepcopy_%s_eq (r : Rating α) : Gen.deepcopy_%s r = deepcopyRating r := rfl\n" % (kind, kind))
+            # model.rating(mu=None, sigma=None, name=None)
+            rf = mf["rating"]
+            if [a.arg for a in rf.args.args] != ["self", "mu", "sigma", "name"] or [ast.unparse(d) for d in rf.args.defaults] != ["None", "None", "None"]:
+                fail(rf, "signature of rating()")
+            rb = [s_ for s_ in rf.body if not (isinstance(s_, ast.Expr) and isinstance(s_.value, ast.Constant))]
+            if not (len(rb) == 1 and isinstance(rb[0], ast.Return)):
+                fail(rf, "rating() is not a single return")
+            rm, rs = _ctor_call(rb[0].value, cls, dict(opt={"mu", "sigma"}, plain={"self.mu": "selfMu", "self.sigma": "selfSigma"}))
+            out.append("def rating_%s (selfMu selfSigma : α) (freshId : Nat) (mu sigma : Option α) : Rating α :=\n  { id := freshId, mu := %s, sigma := %s }\n" % (kind, rm, rs))
+            out.append("theorem rating_%s_eq (dm ds : α) (i : Nat) (mu sigma : Option α) : Gen.rating_%s dm ds i mu sigma = mkRating dm ds i mu sigma := by\n"
+                       "  cases mu <;> cases sigma <;> rfl\n" % (kind, kind))
+            # create_rating(rating, name=None): every `return` builds Cls(mu=rating[0], sigma=rating[1] ...)
+            cf = mf["create_rating"]
+            rets = [n for n in ast.walk(cf) if isinstance(n, ast.Return)]
+            if not rets:
+                fail(cf, "create_rating has no return")
+            pairs = set(_ctor_call(r_.value, cls, dict(opt=set(), plain={"rating[0]": "mu", "rating[1]": "sigma"})) for r_ in rets)
+            if pairs != {("mu", "sigma")}:
+                fail(cf, "create_rating does not build the rating from rating[0], rating[1]")
+            out.append("def createRating_%s (freshId : Nat) (mu sigma : α) : Rating α :=\n  { id := freshId, mu := mu, sigma := sigma }\n" % kind)
+            out.append("theorem createRating_%s_eq (i : Nat) (mu sigma : α) : Gen.createRating_%s i mu sigma = createRating i mu sigma := rfl\n" % (kind, kind))
+            hs = [s_ for s_ in fn["__hash__"].body if isinstance(s_, ast.Return)]
+            if not (hs and ast.unparse(hs[0].value) == "hash((self.id, self.mu, self.sigma))"):
+                out.append("-- NOTE __hash__ of %s is not hash((self.id, self.mu, self.sigma))\n" % cls)
+        except Untranslatable as e:
+            out.append("-- UNTRANSLATABLE construction_%s: %s\n" % (kind, str(e).replace("\n", " ")))
+        except (KeyError, IndexError) as e:
+            out.append("-- UNTRANSLATABLE construction_%s: missing %s\n" % (kind, e))
     return "\n".join(out)
 
 
